@@ -47,7 +47,7 @@ var basicTypes = map[string]types.Type{
 	"int": types.Typ[types.Int], "int64": types.Typ[types.Int64], "int32": types.Typ[types.Int32],
 	"uint": types.Typ[types.Uint], "uint64": types.Typ[types.Uint64], "uint32": types.Typ[types.Uint32],
 	"uint8": types.Typ[types.Uint8], "byte": types.Typ[types.Uint8], "rune": types.Typ[types.Int32],
-	"bool": types.Typ[types.Bool], "string": types.Typ[types.String], "error": types.Universe.Lookup("error").Type(),
+	"bool": types.Typ[types.Bool], "string": types.Typ[types.String], "error": types.Universe.Lookup("error").Type(), "any": types.Universe.Lookup("any").Type(),
 	"uint16": types.Typ[types.Uint16], "int16": types.Typ[types.Int16], "int8": types.Typ[types.Int8],
 }
 
@@ -762,6 +762,16 @@ func (env *Env) elabCall(x ECall) (Val, error) {
 			return Val{T: app("Str", "schr", v.T), GoT: types.Typ[types.String]}, nil
 		}
 		return v, nil
+	case "runeat", "runesz":
+		a, err := env.elab(x.Args[0])
+		if err != nil {
+			return Val{}, err
+		}
+		b, err := env.elab(x.Args[1])
+		if err != nil {
+			return Val{}, err
+		}
+		return Val{T: app("Int", x.Fun, a.T, b.T), GoT: mathInt}, nil
 	case "firstdiff":
 		a, err := env.elab(x.Args[0])
 		if err != nil {
